@@ -945,10 +945,15 @@ def gen_spec(
                 out.append(dict(t="wit"))
             elif depth < 2 and k < 16 and allow_if:
                 nalt = draw(st.integers(1, 3))
-                out.append(
-                    dict(t="if", alts=[gen_stmts(owner_idx, depth + 1, allowed, in_nt) for _ in range(nalt)],
-                         **{"else": nalt > 1 and draw(st.booleans())})
-                )
+                alts = [gen_stmts(owner_idx, depth + 1, allowed, in_nt) for _ in range(nalt)]
+                # the same callee in several alternatives (two exclusive call sites of one method in one body)
+                if nalt > 1 and draw(st.integers(0, 2)) == 0:
+                    calls0 = [c for c in alts[0] if c["t"] == "call"]
+                    for a in alts[1:]:
+                        for c in calls0:
+                            a.append(dict(c, en=allow_enable and draw(st.integers(0, 3)) == 0,
+                                          arg=None if (c["arg"] is None or draw(st.booleans())) else c["arg"]))
+                out.append(dict(t="if", alts=alts, **{"else": nalt > 1 and draw(st.booleans())}))
             elif depth < 2 and k < 17 and allow_switch:
                 w = draw(st.integers(1, 2))
                 vals = list(range(1 << w))
@@ -984,7 +989,9 @@ def gen_spec(
     top = [b["name"] for b in bodies]
     if allow_rels:
         nrel = draw(st.integers(min_rels, 3))
-        for _ in range(nrel):
+        attempts = 0
+        while len(spec["rels"]) < nrel and attempts < 4 * nrel + 4:
+            attempts += 1
             a, b2 = draw(st.sampled_from(top)), draw(st.sampled_from(top))
             kind = draw(st.sampled_from(list(rel_kinds)))
             p = draw(st.sampled_from(["L", "R", "U"]))
